@@ -1363,3 +1363,47 @@ pub fn c19_return_min_ada<S: Src>(_s: &mut S) {
     assert!(accepted >= 20, "vacuous: only {} accepted collateral returns", accepted);
     assert!(failures.is_empty(), "{} collateral returns below their own minimum ADA; first: {}", failures.len(), failures[0]);
 }
+
+// ---------------------------------------------------------------- C08: the fee of EVERY added input is part of "covered"
+/// a builder whose implicit inputs (a withdrawal) already cover outputs + fee and which holds no input yet gets one offered
+/// UTxO added; also ordinary shortfalls.  Whenever add_inputs_from reports success the builder's actual inputs cover the
+/// outputs plus the minimum fee of the builder as it now is.
+pub fn c08_first_input_fee<S: Src>(_s: &mut S) {
+    let mut failures: Vec<String> = Vec::new();
+    let mut successes = 0usize;
+    let cfg = config(false);
+    let strat = |k: u8| match k { 0 => CoinSelectionStrategyCIP2::LargestFirst, 1 => CoinSelectionStrategyCIP2::RandomImprove, 2 => CoinSelectionStrategyCIP2::LargestFirstMultiAsset, _ => CoinSelectionStrategyCIP2::RandomImproveMultiAsset };
+    for strategy in 0..4u8 {
+        for dust in [0u64, 1_000, 5_000, 20_000, 1_000_000] {
+            for slack in [0u64, 500, 3_000, 10_000, 500_000] {
+                for n_offered in [1usize, 2, 3] {
+                    // first pass: learn the minimum fee of the builder without inputs, then fund the withdrawal to outputs + that fee + slack
+                    let build = |withdrawal: u64| {
+                        let mut tb = TransactionBuilder::new(&cfg);
+                        tb.add_output(&TransactionOutput::new(&addr(1, 2), &Value::new(&bn(2_000_000)))).unwrap();
+                        let mut w = Withdrawals::new();
+                        w.insert(&RewardAddress::new(0, &kc(7)), &bn(withdrawal));
+                        tb.set_withdrawals(&w);
+                        tb
+                    };
+                    let fee0 = u64::from(build(3_000_000).min_fee().unwrap());
+                    let mut tb = build(2_000_000 + fee0 + slack);
+                    let mut utxos = TransactionUnspentOutputs::new();
+                    for i in 0..n_offered {
+                        let v = if i + 1 == n_offered { dust } else { 3_000_000 + i as u64 };
+                        utxos.add(&TransactionUnspentOutput::new(&TransactionInput::new(&TransactionHash::from([0x51u8; 32]), i as u32), &TransactionOutput::new(&addr(1, 30 + i as u8), &Value::new(&bn(v)))));
+                    }
+                    if tb.add_inputs_from(&utxos, strat(strategy)).is_err() { continue; }
+                    successes += 1;
+                    let have = u64::from(tb.get_total_input().unwrap().coin());
+                    let need = u64::from(tb.get_total_output().unwrap().coin()) + u64::from(tb.min_fee().unwrap());
+                    if have < need && failures.len() < 5 {
+                        failures.push(format!("strategy {:?}, {} offered (last worth {}), implicit inputs = outputs + fee + {}: success reported, inputs {} < outputs + minimum fee {}", strategy, n_offered, dust, slack, have, need));
+                    }
+                }
+            }
+        }
+    }
+    assert!(successes >= 50, "vacuous: {} successes", successes);
+    assert!(failures.is_empty(), "{} successful selections do not cover outputs + fee; first: {}", failures.len(), failures[0]);
+}
